@@ -39,6 +39,7 @@ Digest(h) ==
       [] h.alg = "sha3_256" -> SHA3_256(h.msg)
       [] h.alg = "sha3_384" -> SHA3_384(h.msg)
       [] h.alg = "sha3_512" -> SHA3_512(h.msg)
+      [] h.alg \in BlakeAlgs /\ h.skip # <<>> -> Blake2sX(h.msg, h.key, h.outlen, h.skip)
       [] h.alg \in BlakeAlgs -> Blake2s(h.msg, h.key, h.outlen)
 
 \* bytes pos+1 .. pos+n of the SHAKE output stream of h.msg
@@ -49,7 +50,13 @@ Stream(h, n) ==
 Update(h, data) == [h EXCEPT !.msg = h.msg \o data]
 Reset(h) == [h EXCEPT !.msg = <<>>, !.mode = "in", !.pos = 0, !.skip = Zero]
 \* the hook advances the count of processed bytes by whole blocks
-Skip(h, nblocks) == [h EXCEPT !.skip = Add(h.skip, Mul(nblocks, FromInt(2 * Sha2W(h.alg))))]
+\* (SHA-2: skip is the total advance, a BigNat; BLAKE2s: the counter enters every compression, so skip is the sequence of
+\* <<position, advance>> pairs, position counting the key block)
+DataLen(h) == Len(h.msg) + (IF Len(h.key) > 0 THEN 64 ELSE 0)
+Skip(h, nblocks) == IF h.alg \in BlakeAlgs THEN [h EXCEPT !.skip = Append(h.skip, <<DataLen(h), Mul(nblocks, FromInt(64))>>)]
+                    ELSE [h EXCEPT !.skip = Add(h.skip, Mul(nblocks, FromInt(2 * Sha2W(h.alg))))]
+\* the BLAKE2s hook refuses (and the harness logs nothing) while nothing has been absorbed
+CanSkip(h) == h.alg \in Sha2Algs \/ (h.alg \in BlakeAlgs /\ DataLen(h) > 0)
 \* which finalization calls leave the instance reset
 Resets(alg, call) == alg \notin BlakeAlgs \/ call \in {"finalize_reset", "finalize_reset_write", "digest"}
 AfterFinalize(h, call) == IF Resets(h.alg, call) THEN Reset(h) ELSE [h EXCEPT !.mode = "dead"]
